@@ -27,6 +27,8 @@ func checkC09(c *Ctx) {
 	r097(c)
 	// the deploy routine disposes only what left service (shared with C02)
 	r021(c, "R09.8 deploy-disposes-only-what-left-service")
+	// ... and what left service is the occupant of the slot that was overwritten (shared with C02)
+	rSlotSwap(c, "R09.9 replaced-balancer-is-the-slot's-previous-occupant")
 }
 
 func r092(c *Ctx) {
